@@ -118,6 +118,18 @@ PROPS = {
         "assumptions": ["USD value of one holding fits int64 and stakes fit uint64 (DESIGN §8 preconditions)", "balances < 2^62",
                         "trigger condition (height % 144, snapshot taken before balance changes) is SyncBlock glue: see C15/C02 glue harness"],
     },
+    "C09": {
+        "asserts": ["C09.", "uncaught-panic"],
+        "harnesses": [
+            {"id": "averages", "func": "VerifAverages", "pkg": NODE, "pkgname": "node", "load": ["./node"],
+             "params": {"quick": {"period": 3, "heights": 6}, "thorough": {"period": 4, "heights": 9}},
+             "must_cover": ["three-or-more-rated", "few-rated"], "max_witness_replays": 6},
+        ],
+        "bounds": {"quick": "averaging period P=3 (package variable; the code is uniform in P, mainnet uses 288), chain of 6 heights with every rated/unrated pattern, 2 assets (one appearing later), rates symbolic in [1, 2^40]; a restarted daemon is compared at EVERY rated block (so every set of restart heights)",
+                   "thorough": "P=4, 9 heights"},
+        "assumptions": ["all other consensus inputs are read from the database (checked by reading SyncBlock: rates, holding, balances, bank, snapshots go through SQL); the rolling-average cache is the only in-memory state that influences results",
+                        "rates are non-zero (a recorded 0 counts as missing in both paths alike)"],
+    },
     "C11": {
         "asserts": ["C11.", "uncaught-panic"],
         "harnesses": [
